@@ -137,6 +137,10 @@ func c14ExecRun(t *rapid.T) {
 	if ntasks > 6 && rapid.IntRange(0, 3).Draw(t, "big") != 0 {
 		ntasks = 2 + ntasks%5
 	}
+	if !thorough && uni(t, "wide", 8) == 0 {
+		// now and then more callers than a small fixed-size resource (a pool or semaphore of 8) could serve
+		ntasks = 7 + uni(t, "widetasks", 4)
+	}
 	nprog := 1
 	if scenario == 3 {
 		nprog = rapid.IntRange(1, 4).Draw(t, "nprog")
